@@ -335,3 +335,4 @@ RULES = [
 
 from . import common as _common_purity
 RULES = RULES + _common_purity.purity_rules("C18")
+RULES = RULES + _common_purity.bundle_rules("C18")
